@@ -38,7 +38,7 @@ doc = {
     ],
     "checks": checks,
     "not_applicable": na,
-    "notes": "All checks decide by generated-input search against an explicit oracle (see DESIGN.md). known_findings.json lists recorded/fixed defects.",
+    "notes": "All checks decide by generated-input search against an explicit oracle (see DESIGN.md). known_findings.json and known.d/*.json list recorded/fixed defects. The C12 harness package is additionally built with MOSN's own build tag mosn_debug (build_tags in harness/c12/parts.json) so that the admin debug handlers of pkg/admin/debug are compiled in; that tag is MOSN's, not a hook of this project.",
 }
 json.dump(doc, open(os.path.join(ROOT, 'MANIFEST.json'), 'w'), indent=1)
 print("claimed:", [c['property_id'] for c in checks])
